@@ -114,7 +114,7 @@ func (p recvProp) Oracle(inp interface{}, obs Sx) (string, string) {
 			}
 		}
 		if len(async) != 0 {
-			return "component routed a packet outside the receive goroutine", "component-async"
+			return "component: a handler call was not recorded in the ordered log", "component-async"
 		}
 	}
 	for _, x := range src {
